@@ -361,9 +361,12 @@ func argvOracle(flags []configFlagInfo, argv []string, obs argvObs) (kind, detai
 		isBool[fi.Name] = fi.isBool()
 	}
 	want := argvSpec(isBool, argv)
-	if want.Class != "" { // the vector violates the grammar: an error of that class naming the culprit
-		if obs.ErrClass != want.Class || obs.ErrArg != want.Arg {
-			return "grammar-error", fmt.Sprintf("grammar says %s(%q), Parse returned %v", want.Class, want.Arg, obs.Err)
+	if want.Class != "" {
+		// the vector violates the grammar: "yields an error". The property fixes neither the wording nor
+		// which violation is named, so the direct oracle asks for an error and nothing more; class and
+		// culprit as the code reports them today are compared by the model stream (tie) only.
+		if obs.Err == nil {
+			return "grammar-error", fmt.Sprintf("grammar says %s(%q), Parse returned nil", want.Class, want.Arg)
 		}
 		return "", ""
 	}
@@ -473,7 +476,8 @@ func configValidText(r *Rng, k configKind) string {
 	case ckUint, ckUint64:
 		return Pick(r, []string{"0", "5", "0x10", "18446744073709551615", "017", "", "0644", "0b1", "1_0"})
 	case ckString:
-		return Pick(r, []string{"", "a", "a=b", "-b", "--", "-", "=", "x y", "\x00", "\xff\xfe", "-n=3", "true"})
+		return Pick(r, []string{"", "a", "a=b", "-b", "--", "-", "=", "x y", "\x00", "\xff\xfe", "-n=3", "true",
+			"welcome\n", "\r\n", " lead", "trail ", "$HOME", "${x}", "%s", "tab\t", "a=b=c", "==", "QQ==", "\"q\"", "'q'", "~"})
 	case ckFloat64:
 		return Pick(r, []string{"0", "1.5", "-2e10", "inf", "-Inf", "nan", "0x1p-2", "1e308", "4.9e-324", ""})
 	case ckDuration:
